@@ -46,7 +46,7 @@ TEXT = {
     "C13": "flush never forgets a task that still holds its slot, for every history without gather_and_close and any number of overlapping flushes (FlushOK invariant); exact effect of flush's last step; collecting flush cannot raise",
     "C14": "stop(n) = cancel of the last min(n,running) ids newest first; never raises; others unaffected",
     "C15": "as-is semantics proved exactly + closed refutations of the three violated clauses (known findings R5), negative value rejected",
-    "C20": "refinement proof over all histories of the queue machine: exactly-once marking, unfinished=puts-exits, join iff",
+    "C20": "refinement proof over all histories of the queue machine: exactly-once marking (also next to hand marks: take = get_nowait()+item_processed() by non-task code), unfinished=puts-exits-takes, join iff",
     "C16": "command surface = public functions and properties, dash-naming injective, flag assignment never claims -h and never clashes (parser can be built), handshake reply, help everywhere",
     "C17": "round trip: for every public method, every option subset in short or long form before or after the positionals, the parse is the call with the expected namespace (defaults = the method's own); dispatch split and reply rule",
     "C18": "one reply per non-blank line (counting invariant over all session histories), buffer empty between commands, errors and help change nothing, sessions independent",
